@@ -442,8 +442,12 @@ class StepBudgetExceeded(BaseException):
 class StepClock:
     """Counts PY_START and backward JUMP events of code objects that live under
     the parglare source directory.  Deterministic (no wall time).  When a
-    budget is set and exceeded, StepBudgetExceeded is raised once into the
-    running code."""
+    budget is set and exceeded, StepBudgetExceeded is raised into the running
+    code at EVERY further tick (an exception raised inside __eq__/__hash__ called
+    from C code, e.g. an OrderedDict operation, can surface as another exception
+    type or be swallowed), and `exceeded` stays set: harness code must look at
+    `exceeded` after the protected region instead of relying on the exception
+    type that came out."""
 
     TOOL = 4
 
@@ -461,7 +465,7 @@ class StepClock:
         if not self._mine(code):
             return sys.monitoring.DISABLE
         self.ticks += 1
-        if self.budget is not None and self.ticks > self.budget and not self.exceeded:
+        if self.budget is not None and self.ticks > self.budget:
             self.exceeded = True
             raise StepBudgetExceeded(self.ticks)
 
@@ -469,7 +473,7 @@ class StepClock:
         if dst >= src or not self._mine(code):
             return sys.monitoring.DISABLE
         self.ticks += 1
-        if self.budget is not None and self.ticks > self.budget and not self.exceeded:
+        if self.budget is not None and self.ticks > self.budget:
             self.exceeded = True
             raise StepBudgetExceeded(self.ticks)
 
